@@ -89,10 +89,12 @@ fn hash_str(s: &str) -> u64 {
     h.finish()
 }
 
-/// decorations that must not change the parse (C17): extra blanks, newlines, comments
-pub fn decorate(w: &[String], variant: u64) -> String {
+/// decorations that must not change the parse (C17): extra blanks, newlines, comments.
+/// Returns the text and the byte offset of every token of `w` in it.
+pub fn decorate(w: &[String], variant: u64) -> (String, Vec<usize>) {
     let seps = [" ", "  ", "\n", " /* c */ ", " // l\n", "\t", "\r\n", "/**/"];
     let mut s = String::new();
+    let mut offs = vec![];
     let mut h = variant;
     if h % 3 == 0 {
         s.push_str(seps[(h / 3 % 8) as usize]);
@@ -100,17 +102,30 @@ pub fn decorate(w: &[String], variant: u64) -> String {
     for (i, t) in w.iter().enumerate() {
         if i > 0 {
             h = h.wrapping_mul(6364136223846793005).wrapping_add(1442695040888963407);
-            let sep = seps[(h >> 33) as usize % 8];
-            // a separator is needed between tokens
-            s.push_str(if sep.is_empty() { " " } else { sep });
+            s.push_str(seps[(h >> 33) as usize % 8]);
         }
+        offs.push(s.len());
         s.push_str(t);
     }
     h = h.wrapping_mul(6364136223846793005).wrapping_add(1442695040888963407);
     if (h >> 33) % 2 == 0 {
         s.push_str(seps[(h >> 40) as usize % 8]);
     }
-    s
+    (s, offs)
+}
+
+/// tokens separated by single blanks
+pub fn plain(w: &[String]) -> (String, Vec<usize>) {
+    let mut s = String::new();
+    let mut offs = vec![];
+    for (i, t) in w.iter().enumerate() {
+        if i > 0 {
+            s.push(' ');
+        }
+        offs.push(s.len());
+        s.push_str(t);
+    }
+    (s, offs)
 }
 
 pub fn replay(v: &Value) -> Outcome {
@@ -248,10 +263,9 @@ pub fn replay(v: &Value) -> Outcome {
         .collect();
     for w in chosen {
         let input: Vec<String> = w.iter().map(|t| ty_of(t)).collect();
-        let plain = w.join(" ");
         let mut first = true;
         for variant in 0..3u64 {
-            let text = if variant == 0 { plain.clone() } else { decorate(&w, h0 ^ (variant * 7919)) };
+            let (text, offs) = if variant == 0 { plain(&w) } else { decorate(&w, h0 ^ (variant * 7919)) };
             let variants: Vec<(RunOpts, bool)> = vec![
                 (RunOpts::default(), true),
                 (RunOpts { recovery: false, ..Default::default() }, false),
@@ -262,7 +276,7 @@ pub fn replay(v: &Value) -> Outcome {
             ];
             for (ro, is_ref) in variants {
                 let evs = run_safe(&tables, &text, ro);
-                o.trace.push(json!({"ev":"run","input": input, "text": text, "len": text.len(),
+                o.trace.push(json!({"ev":"run","input": input, "offs": offs, "text": text, "len": text.len(),
                                     "opts": opts_json(&ro), "ref": is_ref, "newinput": first,
                                     "ok": verdict(&evs).0}));
                 first = false;
